@@ -250,5 +250,58 @@ def run(payload):
     return out
 
 
+def run_artifacts(payload):
+    """web-interface mode (return_results and save_all_results both true): ONE call of run_model_no_trade for the given
+    countries in this fresh process; returns every csv file written (text) and the digests of the in-memory results.
+    All three module-level `repo_root`s are pointed at a private directory (with a `data` symlink to the repository's)."""
+    import hashlib
+    import shutil
+    import src.optimizer.interpret_results as ir
+    import src.scenarios.run_scenario as rs
+    import src.scenarios.run_model_no_trade as rm
+    work = os.environ.get("VERIF_WORK", "/verif/work/C14")
+    root = os.path.join(work, "art_%d" % os.getpid())
+    os.makedirs(os.path.join(root, "results"))
+    os.symlink(os.path.join(os.getcwd(), "data"), os.path.join(root, "data"))
+    ir.repo_root = rs.repo_root = rm.repo_root = root
+    opts = copy.deepcopy(payload["presets"][payload["preset"]])
+    out = {"kind": "artifacts", "countries": payload["countries"], "preset": payload["preset"]}
+    try:
+        with quiet():
+            r = rm.ScenarioRunnerNoTrade().run_model_no_trade(
+                title=payload.get("title", "c14art"), create_pptx_with_all_countries=False, show_country_figures=False,
+                show_map_figures=False, add_map_slide_to_pptx=False, scenario_option=opts, countries_list=list(payload["countries"]),
+                figure_save_postfix="_c14", return_results=True, save_all_results=True)
+        out["ok"] = True
+        out["order"] = list(r[3].keys())
+        out["results"] = {}
+        for cname, interp in r[3].items():
+            parts = T.result_parts(interp)
+            out["results"][cname] = {"digest": T.digest(parts), "headline": parts["headline"],
+                                     "keys": {g: {k: T._h(v.encode()) for k, v in parts[g].items()} for g in ("series", "herd", "rest")}}
+    except BaseException as e:  # noqa: BLE001
+        out["ok"] = False
+        out["err"] = type(e).__name__ + ": " + str(e)[:200].replace("\n", " ")
+        out["tb"] = traceback.format_exc()[-600:]
+        if os.path.exists("model.json"):
+            os.remove("model.json")
+    files = {}
+    rdir = os.path.join(root, "results")
+    for fn in sorted(os.listdir(rdir)):
+        fp = os.path.join(rdir, fn)
+        if os.path.isfile(fp) and fn.endswith(".csv"):
+            b = open(fp, "rb").read()
+            files[fn] = {"sha256": hashlib.sha256(b).hexdigest(), "text": b.decode("utf-8", "replace")}
+    out["files"] = files
+    shutil.rmtree(root, ignore_errors=True)
+    return out
+
+
+def dispatch(payload):
+    if payload.get("mode") == "artifacts":
+        return run_artifacts(payload)
+    return run(payload)
+
+
 if __name__ == "__main__":
-    main_io(run)
+    main_io(dispatch)
